@@ -48,6 +48,8 @@ type HarnessCfg struct {
 	Tiers        []string          `json:"tiers"`  // tiers in which this harness runs (empty = all)
 	Params       map[string]int    `json:"params"` // harness parameters per tier read through verif_param
 	NoReplay     bool              `json:"noreplay"`
+	FactorSimp   bool              `json:"factor_simp"`   // term builder keeps constant factors together and cancels them against constant divisors
+	IncBudgetMs  int               `json:"inc_budget_ms"` // incremental-solver budget per query before the one-shot portfolio is asked (0 = full timeout first)
 	Interfere    string            `json:"interfere"`     // harness function run before every atomic operation and lock acquisition of the executed thread: what other goroutines may do to shared words there (no native counterpart: set noreplay)
 	SingleThread bool              `json:"single_thread"` // no other goroutine exists: TryLock succeeds iff the executed thread does not hold the lock
 }
